@@ -16,16 +16,18 @@ import (
 // probeReport checks bounded liveness: a fresh report from a watching source
 // that is still active is processed (installed, or rejected for a reason the
 // harness can name) before the run settles again.
-func (r *Run) probeReport(oracle, why string) {
+func (r *Run) probeReport(oracle, why string, despiteDone ...bool) {
 	var st *srcState
 	for _, s := range r.srcs {
-		if s.spec.Kind == "watch" && s.wa != nil && s.doneAt == 0 {
+		if s.spec.Kind == "watch" && s.wa != nil && s.doneAt == 0 && !s.doneTried && !s.spec.Wrapped {
 			st = s
 		}
 	}
-	for _, op := range r.ops {
-		if op.K == "done" || op.K == "bdone" {
-			return // a watcher may be gone (and with the last one, the monitor): nothing to probe
+	if len(despiteDone) == 0 {
+		for _, op := range r.ops {
+			if op.K == "done" || op.K == "bdone" {
+				return // a watcher may be gone (and with the last one, the monitor): nothing to probe
+			}
 		}
 	}
 	if st == nil || r.ctx.Err() != nil {
